@@ -310,4 +310,129 @@ example (nested : Nested) :
   obtain ⟨_, _, _, _, _, _, _, _, _, _, hem⟩ := hsat _ haud (hall _ haud)
   exact hem "audited" (by decide)
 
+/-! ## known finding C01-F2: a default replaced by an equal value of another type
+
+`update_value` compares with Python's `old != new`, and `True == 1`: when an upstream node replaces
+the signature default `1` of a fed parameter by `True`, the version of the name does not advance and
+its consumers are not re-run.  The graph violates `NoFallbackOnFedParam` (the parameter `a` of `B` is
+fed by `A` AND has a default), which is why `dag_run` does not apply; every other hypothesis holds. -/
+
+/-- `A(x) -> a` returns its argument -/
+def f2A : NodeSpec := { name := "A", kind := .fn, params := [("x", .none)], dataOuts := ["a"], body := .first }
+/-- `B(a = 1) -> b` returns its argument; `a` has the signature default `1` and is fed by `A` -/
+def f2B : NodeSpec :=
+  { name := "B", kind := .fn, params := [("a", some (.int 1))], dataOuts := ["b"], body := .first }
+/-- `C(b) -> c` returns the tuple `("C", b)` -/
+def f2C : NodeSpec := { name := "C", kind := .fn, params := [("b", .none)], dataOuts := ["c"], body := .tag "C" }
+def f2Spec : GraphSpec := { name := "f2", nodes := [f2A, f2B, f2C] }
+def f2Prog : Program := elabProgram [f2Spec]
+def f2G : GraphD := elabGraph [] f2Spec
+/-- run-time input `x = True` -/
+def f2Values : AL Val := [("x", .bool true)]
+def f2Level : Name → Nat := fun n => if n = "A" then 0 else if n = "B" then 1 else 2
+
+/-- after superstep 0 (`A` on `x`, `B` on its default — `a` was not there yet) -/
+def f2Mid : GState :=
+  { values := [("x", .bool true), ("a", .bool true), ("b", .int 1)]
+    versions := [("x", 1), ("a", 1), ("b", 1)]
+    execs := [("A", { inputVersions := [("x", 1)], waitForVersions := [] }),
+              ("B", { inputVersions := [("a", 0)], waitForVersions := [] })] }
+
+/-- after superstep 1 (`B` again, on `a = True`; `C` on the snapshot's `b = 1`): quiescent -/
+def f2Final : GState :=
+  { values := [("x", .bool true), ("a", .bool true), ("b", .bool true), ("c", Val.mkTup [.str "C", .int 1])]
+    versions := [("x", 1), ("a", 1), ("b", 1), ("c", 1)]
+    execs := [("A", { inputVersions := [("x", 1)], waitForVersions := [] }),
+              ("B", { inputVersions := [("a", 1)], waitForVersions := [] }),
+              ("C", { inputVersions := [("b", 1)], waitForVersions := [] })] }
+
+theorem f2_semTotal : SemTotal bodySem f2G := by
+  intro nd hn args
+  have h : nd.dataOuts.length ≤ 1 := by
+    have : nd = elabNode [] f2A ∨ nd = elabNode [] f2B ∨ nd = elabNode [] f2C := by
+      simpa [f2G, elabGraph, f2Spec] using hn
+    rcases this with rfl | rfl | rfl <;> decide
+  have hv : ∃ v, bodySem nd args = .val v := by
+    have : nd = elabNode [] f2A ∨ nd = elabNode [] f2B ∨ nd = elabNode [] f2C := by
+      simpa [f2G, elabGraph, f2Spec] using hn
+    rcases this with rfl | rfl | rfl <;> exact ⟨_, rfl⟩
+  obtain ⟨v, hv⟩ := hv
+  obtain ⟨outs, ho⟩ := wrapOutputs_isSome_of_le_one nd v h
+  exact ⟨v, outs, hv, ho⟩
+
+/-- the consumer's output in `f2Final` is NOT its function applied to the input it would collect there -/
+theorem f2_not_holds : ¬ Holds bodySem f2G f2Final (elabNode [] f2C) := by
+  rintro ⟨args, v, outs, hc, hv, hw, ho⟩
+  have e1 : collectInputs f2G f2Final (elabNode [] f2C) (elabNode [] f2C).inputs =
+      some [("b", .bool true)] := by decide
+  rw [e1] at hc
+  cases hc
+  have e2 : bodySem (elabNode [] f2C) (toParams (elabNode [] f2C) [("b", .bool true)]) =
+      .val (Val.mkTup [.str "C", .bool true]) := rfl
+  rw [e2] at hv
+  cases hv
+  have e3 : wrapOutputs (elabNode [] f2C) (Val.mkTup [.str "C", .bool true]) =
+      some [("c", Val.mkTup [.str "C", .bool true])] := by decide
+  rw [e3] at hw
+  cases hw
+  have := ho "c" (by decide)
+  revert this
+  decide
+
+/-- KNOWN FINDING C01-F2 (negative witness; confirmed on the real library).  The three-node program
+`A(x) -> a`, `B(a = 1) -> b`, `C(b) -> c = ("C", b)` run with `x = True` under the sync step function:
+
+* superstep 0 runs `A` and `B` — `B` is ready on its signature default, `a` is not in the state yet —
+  and leaves `a = True`, `b = 1`;
+* superstep 1 re-runs `B` (its input `a` went from version 0 to 1) and runs `C` on the superstep's
+  snapshot `b = 1`; `B` now writes `b = True`, but `1 == True` in Python, so `update_value` does NOT
+  advance the version of `b` (`bumps = false`, whereas the structural test `bumpsStructural` would);
+* the scheduler is quiescent: `C` recorded `b`@1 and `b` is still @1.
+
+The run COMPLETES with `b = True` but `c = ("C", 1)`: the consumer was not re-run (`C` is called exactly
+once, on `1`), so the run does NOT equal dependency-order evaluation, which gives `c = ("C", True)`: `C`
+is satisfiable but does not hold its function's result on its final input, and the final state
+violates `evalSpec`.  Every hypothesis of `dag_run` except `NoFallbackOnFedParam` holds.  Control: with
+`x = 2` (a value Python tells apart from `1`) the consumer IS re-run. -/
+theorem equal_other_type_no_rerun_witness :
+    -- through `run()`
+    (run bodySem .sync f2Prog 0 f2Values {}).status = .completed ∧
+    (run bodySem .sync f2Prog 0 f2Values {}).values =
+      [("a", .bool true), ("b", .bool true), ("c", Val.mkTup [.str "C", .int 1])] ∧
+    callsOf (run bodySem .sync f2Prog 0 f2Values {}).log =
+      [("0:A", [("x", .bool true)]), ("0:B", [("a", .int 1)]), ("0:B", [("a", .bool true)]),
+       ("0:C", [("b", .int 1)])] ∧
+    -- the two supersteps, one by one
+    (∀ nested : Nested,
+      (ready f2G .none (initState f2Values)).1 = [elabNode [] f2A, elabNode [] f2B] ∧
+      (∃ log, stepSync nested bodySem 0 f2G ["r"] 0 (initState f2Values) [elabNode [] f2A, elabNode [] f2B]
+        (initState f2Values) [] = .ok f2Mid log) ∧
+      (ready f2G .none f2Mid).1 = [elabNode [] f2B, elabNode [] f2C] ∧
+      (∃ log, stepSync nested bodySem 0 f2G ["r"] 1 f2Mid [elabNode [] f2B, elabNode [] f2C] f2Mid [] =
+        .ok f2Final log) ∧
+      (ready f2G .none f2Final).1 = [] ∧
+      (∃ log, runLoop (fun k s rs => stepSync nested bodySem 0 f2G ["r"] k s rs s []) f2G .none 1000 1000 0
+        (initState f2Values) [] = .done f2Final log 2)) ∧
+    -- the cause: writing `True` over `1` is no new version
+    (f2Mid.bumps "b" (.bool true) = false ∧ f2Mid.bumpsStructural "b" (.bool true) = true) ∧
+    -- the outcome is not dependency-order evaluation
+    AL.get? f2Final.values "b" = some (.bool true) ∧
+    AL.get? f2Final.values "c" = some (Val.mkTup [.str "C", .int 1]) ∧
+    bodySem (elabNode [] f2C) [("b", .bool true)] = .val (Val.mkTup [.str "C", .bool true]) ∧
+    Satisfiable f2G f2Values (elabNode [] f2C) ∧
+    ¬ Holds bodySem f2G f2Final (elabNode [] f2C) ∧
+    ¬ evalSpec bodySem f2G f2Values f2Final ∧
+    -- which hypothesis of `dag_run` fails
+    (AllFn f2G ∧ NoWaitFor f2G ∧ WellDefaulted f2G ∧ UniqueProducers f2G ∧ Levelled f2G f2Level ∧
+      SemTotal bodySem f2G ∧ ¬ NoFallbackOnFedParam f2G f2Values) ∧
+    -- control
+    (run bodySem .sync f2Prog 0 [("x", .int 2)] {}).values =
+      [("a", .int 2), ("b", .int 2), ("c", Val.mkTup [.str "C", .int 2])] := by
+  have hC : elabNode [] f2C ∈ f2G.nodes := by simp [f2G, elabGraph, f2Spec]
+  have hsat : Satisfiable f2G f2Values (elabNode [] f2C) :=
+    satisfiable_of_covered (level := f2Level) (by decide) (by decide) _ hC
+  refine ⟨by decide, by decide, by decide, fun nested => ⟨rfl, ⟨_, rfl⟩, rfl, ⟨_, rfl⟩, by decide, ⟨_, rfl⟩⟩,
+    by decide, by decide, by decide, rfl, hsat, f2_not_holds, fun h => f2_not_holds (h.2.1 _ hC hsat),
+    ⟨by decide, by decide, by decide, by decide, by decide, f2_semTotal, by decide⟩, by decide⟩
+
 end HG.C01
